@@ -151,6 +151,7 @@ pub fn finish(shard: &mut Shard, total: &Stats) {
     shard.count("read_only_transactions_held_open_across_write_transactions", total.pinned_readers_opened);
     shard.count("commits_made_while_a_reader_pinned_an_older_snapshot", total.commits_with_a_pinned_reader);
     shard.count("pinned_reader_histories_cut_short_by_the_growth_guard(no verdict)", total.pinned_histories_cut_short_by_the_growth_guard);
+    shard.count("bucket_handles_dropped_in_the_middle_of_a_transaction", total.handles_dropped_mid_transaction);
     shard.count("ops", total.ops);
     shard.count("commits", total.commits);
     shard.count("rollbacks", total.rollbacks);
@@ -426,6 +427,26 @@ pub fn run(ctx: &Ctx, mode: Mode) -> Shard {
                 let out = exec::run_history(&h, &cfg, &path);
                 let _ = std::fs::remove_file(&path);
                 absorb(&mut shard, ctx, mode, &h, &out, &mut total, "bucket-directory");
+            }
+        }
+    }
+    // ---- 5d'. directed: a wide bucket (65-200 sub-buckets); a write two levels down whose handles are all
+    // dropped before every sub-bucket is opened; then back to it from the top (all three checks)
+    {
+        let mut idx = 0u64;
+        for n in [65usize, 66, 80, 130, 200] {
+            for target in [0usize, 1, n / 2, n - 2, n - 1] {
+                for variant in 0..6usize {
+                    idx += 1;
+                    if idx % ctx.nshards != ctx.shard || (!deep && n > 80 && variant > 2) {
+                        continue;
+                    }
+                    let h = shape::wide_dir_history(ps, n, target, variant);
+                    let path = scratch.fresh("wd");
+                    let out = exec::run_history(&h, &cfg, &path);
+                    let _ = std::fs::remove_file(&path);
+                    absorb(&mut shard, ctx, mode, &h, &out, &mut total, "wide-directory");
+                }
             }
         }
     }
